@@ -19,6 +19,7 @@ Recognised shapes (anything else raises Untranslatable -> tie broken):
                        with L in {candidates, matches}                           -> select_rules
   _node_matches_argspec(node, func)    assignments; `if A != B: return False` ...; return True, each comparison
                                        naming one of arg_spec.args / .varargs / .varkw / .kwonlyargs
+                                       (CompArgsPos when node.args.posonlyargs takes part in the args comparison)
                                        -> match_components
 """
 import ast
@@ -210,6 +211,8 @@ def translate(repo):
                 _fail(s, 'signature comparison ' + txt)
             if hit[0] == 'CompVararg' and 'node.args.varargs' in txt:
                 _fail(s, 'signature comparison ' + txt)
+            if hit[0] == 'CompArgs' and 'node.args.posonlyargs' in txt:
+                hit = ['CompArgsPos']
             comps.append(hit[0])
             continue
         _fail(s, 'statement shape in _node_matches_argspec')
